@@ -108,6 +108,10 @@ def _typestr(x):
 
 
 def comparable_itemgetter(*args):
+    if not args:
+        # no key fields (a table whose header has no fields): every row has
+        # the same, empty key
+        return lambda x: Comparable(())
     getter = operator.itemgetter(*args)
     getter_with_default = _itemgetter_with_default(*args)
 
